@@ -17,7 +17,7 @@ import (
 
 func main() {
 	if len(os.Args) < 2 {
-		fmt.Println("usage: chainmc <C01|C05|C08|C09|C10|C14|C17> [--tier t] [--replay f]")
+		fmt.Println("usage: chainmc <C01|C05|C08|C09|C10|C14|C15|C16|C17> [--tier t] [--replay f]")
 		os.Exit(2)
 	}
 	if os.Args[1] == "c01-crash-child" {
@@ -25,7 +25,7 @@ func main() {
 	}
 	r := ev.Parse("model_checking")
 	switch os.Args[1] {
-	case "C01", "C05", "C10":
+	case "C01", "C05", "C10", "C15":
 		if ph := os.Getenv("VERIF_PHASE"); os.Args[1] == "C01" && (ph == "conc" || ph == "race") {
 			runC01Conc(r)
 		}
@@ -120,7 +120,7 @@ func (c *checker) runHistory(h []int, all bool) (key string, what string, pruned
 				return "", "harness: warm-up block failed: " + out.results[0].Panic, false
 			}
 		}
-		if c.prop == "C05" {
+		if c.prop == "C05" || c.prop == "C15" {
 			if s, w := supplyInvariants(b.ref()); w == "" {
 				prevSupply = s
 			}
@@ -129,7 +129,7 @@ func (c *checker) runHistory(h []int, all bool) (key string, what string, pruned
 	// Scripted prefix (GenesisOptions.Prefix): part of the initial state, not of the history.
 	for _, nm := range c.w.opts.Prefix {
 		var pl *letter
-		for _, t := range c.w.stakingTxs() {
+		for _, t := range append(c.w.stakingTxs(), c.w.chainedTxs()...) {
 			if t.Name == nm {
 				pl = &letter{Name: nm, Txs: []txT{t}}
 			}
@@ -150,10 +150,17 @@ func (c *checker) runHistory(h []int, all bool) (key string, what string, pruned
 		if len(out.results[0].TxResults) > 0 && out.results[0].TxResults[0].Code != 0 {
 			return "", fmt.Sprintf("harness: prefix transaction %s failed with code %d", nm, out.results[0].TxResults[0].Code), false
 		}
-		if c.prop == "C05" {
+		if c.prop == "C05" || c.prop == "C15" {
 			if s, w := supplyInvariants(b.ref()); w == "" {
 				prevSupply = s
 			}
+		}
+	}
+	var prevView *stakeView
+	if c.prop == "C15" {
+		// (before the first block there is no committed state to read: the oracle starts at block 2)
+		if v, w := readStakeView(b.ref()); w == "" {
+			prevView = v
 		}
 	}
 	for i, li := range h {
@@ -187,9 +194,21 @@ func (c *checker) runHistory(h []int, all bool) (key string, what string, pruned
 					return "", fmt.Sprintf("block %d (%s): replica %s rejected the honest proposal", i+1, l.Name, b.reps[ri].spec.Name), false
 				}
 			}
-		case "C05":
+		case "C05", "C15":
 			if ref.Panic != "" {
 				return "", "", true
+			}
+			if c.prop == "C15" {
+				v, w := readStakeView(b.ref())
+				if w != "" {
+					return "", "harness: " + w, false
+				}
+				if prevView != nil && len(l.Txs) == 0 && l.Round == nil && l.Evidence == "" {
+					if w := debondOracle(prevView, v, ref); w != "" {
+						return "", fmt.Sprintf("block %d (%s, epoch %d -> %d): %s", i+1, l.Name, prevView.Epoch, v.Epoch, w), false
+					}
+				}
+				prevView = v
 			}
 			s, w := supplyInvariants(b.ref())
 			if w != "" {
@@ -341,7 +360,7 @@ func timelinePhase(r *ev.Run, c *checker, vi int, profile string, opts chain.Gen
 
 func runHistories(r *ev.Run) {
 	prop := r.ID
-	profiles := map[string][]string{"C01": {"c01"}, "C05": {"staking"}, "C10": {"halt"}}[prop]
+	profiles := map[string][]string{"C01": {"c01"}, "C05": {"staking"}, "C10": {"halt"}, "C15": {"staking"}}[prop]
 	depth := 2
 	if r.Thorough() {
 		depth = 3
@@ -387,6 +406,16 @@ func runHistories(r *ev.Run) {
 	if prop == "C05" || prop == "C10" || (prop == "C01" && r.Thorough()) {
 		// a vault at genesis: funds held by a module account with a withdraw hook, actions that execute inner messages
 		variants = append(variants, chain.GenesisOptions{Vault: true, EpochInterval: 3})
+	}
+	if prop == "C15" {
+		// debonding in flight (two pools, two epochs to go): slashing, further reclaims and deposits happen
+		// while delegations wait, completion at the then current price
+		variants = append(variants, chain.GenesisOptions{EpochInterval: 3, DebondingInterval: 2, NodeExpiration: 14, Prefix: []string{"reclaim(a0<-e0,100sh)", "reclaim(e1<-e1,333sh)"}})
+	}
+	if prop == "C05" || prop == "C15" {
+		// entities delegating to each other: an escrow account that is itself a delegator elsewhere,
+		// with reclaims of all parties ending at the same epoch
+		variants = append(variants, chain.GenesisOptions{EpochInterval: 3, NodeExpiration: 14, Prefix: []string{"escrow(e1->e0,400)", "escrow(e0->e1,200)", "escrow(e2->e1,300)", "escrow(a0->e1,100)", "escrow(a1->e1,333)chain"}})
 	}
 	if prop == "C05" {
 		// a compute runtime and a minimum transact balance: payments into the (empty) runtime account can
@@ -513,6 +542,11 @@ func runHistories(r *ev.Run) {
 			timelinePhase(r, c, vi, profile, opts)
 		}
 	}
+	if prop == "C15" {
+		r.Add("debonding_reference_evaluations", c15Evals.Load())
+		r.Add("debonding_payouts_compared", c15Payouts.Load())
+		r.Add("not_due_delegations_compared", c15NotDue.Load())
+	}
 	r.Set("depth", depth)
 	r.Set("genesis_variants", len(variants))
 	r.Alias("traces_validated_against_impl", "transitions")
@@ -521,6 +555,8 @@ func runHistories(r *ev.Run) {
 		r.Set("rule", "breadth-first search over block histories (one letter = one block: a transaction list, a vote pattern, a proposer, evidence); every history is executed from genesis on a bundle of replicas of the real ABCI multiplexer + all real applications: proposer (PrepareProposal + cached results), validator (ProcessProposal executes), plain replay, validator that first processed a different proposal, validator with CheckTx/queries injected between all ABCI calls, on-disk replica closed and reopened before every block; badger and pathbadger; oracle: identical state root, per-transaction code/data/gas/events, block events, validator updates as a set, and acceptance of the honest proposal Genesis variants with a compute runtime served by all nodes add: warm-up to the first executor committee, runtime rounds (correctly signed executor commitments of all workers / the scheduler only / with a dissenting worker / with failure votes / with backup votes; emitting staking transfer, withdraw, add-escrow, reclaim, update-runtime and malformed runtime messages; processing the incoming message queue with right and wrong hash), SubmitMsg, RegisterRuntime updates, runtime node registrations. Timeline phase: N-block histories with one letter at every chosen offset and empty blocks (or, with a runtime, finalized rounds) elsewhere, oracle evaluated on every block.")
 	case "C05":
 		r.Set("rule", "breadth-first search over block histories of staking / governance transactions (valid and invalid, zero/huge amounts, reserved and equal addresses, fees), vote patterns, proposers and evidence, crossing epoch boundaries (interval 3); after every block: total supply = general + escrow.active + escrow.debonding + common pool + governance deposits + last block fees; per escrow account total shares = sum of (debonding) delegations; supply never increases and decreases exactly by the block's burn events Genesis variants with a compute runtime served by all nodes add: warm-up to the first executor committee, runtime rounds (correctly signed executor commitments of all workers / the scheduler only / with a dissenting worker / with failure votes / with backup votes; emitting staking transfer, withdraw, add-escrow, reclaim, update-runtime and malformed runtime messages; processing the incoming message queue with right and wrong hash), SubmitMsg, RegisterRuntime updates, runtime node registrations. Timeline phase: N-block histories with one letter at every chosen offset and empty blocks (or, with a runtime, finalized rounds) elsewhere, oracle evaluated on every block.")
+	case "C15":
+		r.Set("rule", "chain part of C15 (debonding completion): breadth-first search over block histories of the staking alphabet (escrow, reclaim, transfers, evidence / slashing, vote patterns) on the default genesis and on a genesis whose prefix makes entities delegate to each other (an escrow account that is itself a delegator elsewhere, reclaims of all parties ending at the same epoch), crossing epoch boundaries (interval 3), plus the timeline phase; oracle: after every block the C05 supply and share-sum invariants, and for every block without transactions and evidence a reference model of debonding completion applied to the committed state before the block (due entries in queue order, paid shares * pool balance / pool shares, exactly when the epoch changed and the end epoch is reached): general balances, debonding pools, the set of pending debonding delegations and the reclaim events after the block must equal the reference")
 	case "C10":
 		r.Set("rule", "breadth-first search over block histories with extreme amounts, every vote pattern (none, proposer only, duplicates, unknown validators, empty), unknown proposer, evidence against known / unknown validators and of unknown type, proposals and debonding ending on epoch boundaries, on three genesis variants (default; min-transact-balance + genesis fees + depleted common pool; single validator + tiny block gas); oracle: PrepareProposal yields a proposal, every replica accepts it, Begin/Deliver/End/Commit return without panic Genesis variants with a compute runtime served by all nodes add: warm-up to the first executor committee, runtime rounds (correctly signed executor commitments of all workers / the scheduler only / with a dissenting worker / with failure votes / with backup votes; emitting staking transfer, withdraw, add-escrow, reclaim, update-runtime and malformed runtime messages; processing the incoming message queue with right and wrong hash), SubmitMsg, RegisterRuntime updates, runtime node registrations. Timeline phase: N-block histories with one letter at every chosen offset and empty blocks (or, with a runtime, finalized rounds) elsewhere, oracle evaluated on every block.")
 	}
